@@ -46,6 +46,7 @@ struct Plan {
   // forced low descriptor number for a user handle (-1 = none): dup2'ed there if free
   int force_fd[3] = { -1, -1, -1 };
   int deadline = 0;
+  bool in_path_fresh = false;  // a path redirect for stdin names a file that does not exist yet ("will create or open the file")
   reproc_stop_actions stop = { { REPROC_STOP_WAIT, 2000 }, { REPROC_STOP_KILL, 2000 }, { REPROC_STOP_NOOP, 0 } };
 };
 
@@ -236,7 +237,7 @@ inline bool build(const Plan &p, const std::string &dir, Built &b)
           break;
         }
         b.paths[(size_t) s] = dir + "/path-" + std::to_string(s);
-        if (s == 0) touch(b.paths[(size_t) s], "path-input\n");
+        if (s == 0 && !p.in_path_fresh) touch(b.paths[(size_t) s], "path-input\n");
         ro[s]->path = b.paths[(size_t) s].c_str();
         if (!p.field_only[s]) ro[s]->type = REPROC_REDIRECT_PATH;
         e.kind = Expect::OBJECT;
